@@ -37,8 +37,7 @@ def hashOf (alg : String) : Option Mac.Hash :=
   | "b2s256" => some { h := Blake2s.blake2s 32, outLen := 32, blockLen := 64 }
   | _ => none
 
-def aesE (key : List UInt8) : List UInt8 → List UInt8 := Aes.cipher (Aes.keyExpansion key)
-def aesD (key : List UInt8) : List UInt8 → List UInt8 := Aes.invCipher (Aes.keyExpansion key)
+open Relic.Model.Bc (aesE aesD)
 
 /-- tokens of md_stream / b2s_stream: a chunk, or `=` = a Result / final call in between -/
 def parseToks : List String → Option (List (Option (List UInt8)))
